@@ -587,17 +587,20 @@ def ntimes (g : Gen) : Nat :=
   | none => 1
   | some l => if l = 0 then 1 else l.natAbs
 
+/-- `if gen.gx: gen.gx *= ratio` (`None` and `0.0` are falsy) -/
+def scaleGx (gx : Option Rat) (ratio : Rat) : Option Rat :=
+  match gx with
+  | none => none
+  | some x => if x = 0 then some x else some (x * ratio)
+
 /-- the scaling of `gx` and `rate` by an area or volume ratio -/
 def scaleGen (g : Gen) (ratio : Rat) : Except Exc (Option Rat × Option (List Rat)) :=
   if tablegens.contains g.type then
-    let gx := match g.gx with
-      | none => none
-      | some x => if x = 0 then some x else some (x * ratio)
     if ntimes g > 1 then
       match g.rate with
       | none => .error .typeError
-      | some r => .ok (gx, some (r.map (· * ratio)))
-    else .ok (gx, g.rate)
+      | some r => .ok (scaleGx g.gx ratio, some (r.map (· * ratio)))
+    else .ok (scaleGx g.gx ratio, g.rate)
   else .ok (g.gx, g.rate)
 
 def listIndex (l : List Str) (x : Str) : Option Nat :=
@@ -618,86 +621,109 @@ def pick3 (cv : Conv) (first cat : Str) : Except Exc Str :=
 
 def sumQ (l : List Rat) : Rat := l.foldl (· + ·) 0
 
+/-- `colmapping[col.name] == sourcecolname`, for the list comprehension of mapped columns -/
+def colFlag (colmapping : Dict Str) (sourcecolname : Str) (c : Col) : Except Exc (Col × Bool) :=
+  match dget colmapping c.name with
+  | .error e => .error e
+  | .ok m => .ok (c, decide (m = sourcecolname))
+
+/-- the `category` of a column (top/bottom) generator's new name -/
+def colGenCategory (sgeo geo : Geo) (colGenerator : List Str) (sourcecategory : Str) : Except Exc Str :=
+  if geo.conv = sgeo.conv then .ok sourcecategory
+  else match listIndex colGenerator sourcecategory with
+    | none => .error .valueError
+    | some i => pick3 geo.conv (fmt2d i) sourcecategory
+
+/-- the layer of a column generator's new block: the column's top layer, or the bottom layer -/
+def colGenLayer (geo : Geo) (top : List Str) (sourcecategory : Str) (col : Col) : Except Exc Str :=
+  if top.contains sourcecategory then
+    match geo.surfaceLayer col with
+    | .error e => .error e
+    | .ok l => .ok l.name
+  else
+    match pyIdx geo.lays (-1) with
+    | .error e => .error e
+    | .ok l => .ok l.name
+
+/-- body of the loop over the mapped columns -/
+def colGenOne (sgeo geo : Geo) (top bottom : List Str) (idx : Nat) (sg : Gen) (area : Rat) (col : Col) :
+    Except Exc GenOut :=
+  if area = 0 then .error .zeroDivision
+  else
+    match scaleGen sg (col.area / area) with
+    | .error e => .error e
+    | .ok (gx, rate) =>
+      match colGenCategory sgeo geo (top ++ bottom) (layerName sgeo.conv sg.name) with
+      | .error e => .error e
+      | .ok category =>
+        match blockName geo.conv category col.name with
+        | .error e => .error e
+        | .ok gname =>
+          match colGenLayer geo top (layerName sgeo.conv sg.name) col with
+          | .error e => .error e
+          | .ok layername =>
+            match blockName geo.conv layername col.name with
+            | .error e => .error e
+            | .ok gblock => .ok ⟨idx, gname, gblock, gx, rate⟩
+
+/-- `mapping[blk.name] == sourceblock.name`, for the list comprehension of mapped blocks -/
+def blkFlag (mapping : Dict Str) (blockname : Str) (b : Str × Rat) : Except Exc ((Str × Rat) × Bool) :=
+  match dget mapping b.1 with
+  | .error e => .error e
+  | .ok m => .ok (b, decide (m = blockname))
+
+/-- body of the loop over the mapped blocks -/
+def blkGenOne (sgeo geo : Geo) (rename : Bool) (idx : Nat) (sg : Gen) (vol : Rat) (b : Str × Rat) :
+    Except Exc GenOut :=
+  if vol = 0 then .error .zeroDivision
+  else
+    match scaleGen sg (b.2 / vol) with
+    | .error e => .error e
+    | .ok (gx, rate) =>
+      if rename then
+        match (if geo.conv = sgeo.conv then .ok (layerName sgeo.conv sg.name)
+               else pick3 geo.conv [' ', '0'] (layerName sgeo.conv sg.name) : Except Exc Str) with
+        | .error e => .error e
+        | .ok category =>
+          match blockName geo.conv category (columnName geo.conv b.1) with
+          | .error e => .error e
+          | .ok gname => .ok ⟨idx, gname, b.1, gx, rate⟩
+      else .ok ⟨idx, sg.name, b.1, gx, rate⟩
+
 /-- the generators made from one source generator -/
 def transferOneGen (sgeo geo : Geo) (sgridVol : Dict Rat) (tgrid : List (Str × Rat))
     (incols : List Col) (top bottom : List Str) (mapping colmapping : Dict Str)
     (rename preserve : Bool) (idx : Nat) (sg : Gen) : Except Exc (List GenOut) :=
-  let sourcecategory := layerName sgeo.conv sg.name
-  let sourcecolname := columnName sgeo.conv sg.block
-  let colGenerator := top ++ bottom
-  if colGenerator.contains sourcecategory then
-    match mapE (fun (c : Col) =>
-        match dget colmapping c.name with
-        | .error e => .error e
-        | .ok m => .ok (c, decide (m = sourcecolname))) incols with
+  if (top ++ bottom).contains (layerName sgeo.conv sg.name) then
+    match mapE (colFlag colmapping (columnName sgeo.conv sg.block)) incols with
     | .error e => .error e
     | .ok flagged =>
-      let mappedcols := (flagged.filter (·.2)).map (·.1)
-      match (if preserve then .ok (sumQ (mappedcols.map (·.area)))
-             else match sgeo.findCol sourcecolname with
+      match (if preserve then .ok (sumQ (((flagged.filter (·.2)).map (·.1)).map (·.area)))
+             else match sgeo.findCol (columnName sgeo.conv sg.block) with
                | .error e => .error e
                | .ok c => .ok c.area : Except Exc Rat) with
       | .error e => .error e
-      | .ok area =>
-        mapE (fun (col : Col) =>
-          if area = 0 then .error .zeroDivision
-          else
-            match scaleGen sg (col.area / area) with
-            | .error e => .error e
-            | .ok (gx, rate) =>
-              match (if geo.conv = sgeo.conv then .ok sourcecategory
-                     else match listIndex colGenerator sourcecategory with
-                       | none => .error .valueError
-                       | some i => pick3 geo.conv (fmt2d i) sourcecategory : Except Exc Str) with
-              | .error e => .error e
-              | .ok category =>
-                match blockName geo.conv category col.name with
-                | .error e => .error e
-                | .ok gname =>
-                  match (if top.contains sourcecategory then
-                           match geo.surfaceLayer col with
-                           | .error e => .error e
-                           | .ok l => .ok l.name
-                         else
-                           match pyIdx geo.lays (-1) with
-                           | .error e => .error e
-                           | .ok l => .ok l.name : Except Exc Str) with
-                  | .error e => .error e
-                  | .ok layername =>
-                    match blockName geo.conv layername col.name with
-                    | .error e => .error e
-                    | .ok gblock => .ok ⟨idx, gname, gblock, gx, rate⟩) mappedcols
+      | .ok area => mapE (colGenOne sgeo geo top bottom idx sg area) ((flagged.filter (·.2)).map (·.1))
   else
     match dget sgridVol sg.block with
     | .error e => .error e
     | .ok svol =>
-      match mapE (fun (b : Str × Rat) =>
-          match dget mapping b.1 with
-          | .error e => .error e
-          | .ok m => .ok (b, decide (m = sg.block))) tgrid with
+      match mapE (blkFlag mapping sg.block) tgrid with
       | .error e => .error e
       | .ok flagged =>
-        let mappedblocks := (flagged.filter (·.2)).map (·.1)
-        let vol := if preserve then sumQ (mappedblocks.map (·.2)) else svol
-        mapE (fun (b : Str × Rat) =>
-          if vol = 0 then .error .zeroDivision
-          else
-            match scaleGen sg (b.2 / vol) with
-            | .error e => .error e
-            | .ok (gx, rate) =>
-              if rename then
-                match (if geo.conv = sgeo.conv then .ok sourcecategory
-                       else pick3 geo.conv [' ', '0'] sourcecategory : Except Exc Str) with
-                | .error e => .error e
-                | .ok category =>
-                  match blockName geo.conv category (columnName geo.conv b.1) with
-                  | .error e => .error e
-                  | .ok gname => .ok ⟨idx, gname, b.1, gx, rate⟩
-              else .ok ⟨idx, sg.name, b.1, gx, rate⟩) mappedblocks
+        mapE (blkGenOne sgeo geo rename idx sg
+                (if preserve then sumQ (((flagged.filter (·.2)).map (·.1)).map (·.2)) else svol))
+             ((flagged.filter (·.2)).map (·.1))
 
 def enumFrom {α : Type} (n : Nat) : List α → List (Nat × α)
   | [] => []
   | a :: as => (n, a) :: enumFrom (n + 1) as
+
+/-- one iteration of `for sourcegen in source.generatorlist` -/
+def genStep (sgeo geo : Geo) (sgridVol : Dict Rat) (tgrid : List (Str × Rat))
+    (incols : List Col) (top bottom : List Str) (mapping colmapping : Dict Str)
+    (rename preserve : Bool) (p : Nat × Gen) : Except Exc (List GenOut) :=
+  transferOneGen sgeo geo sgridVol tgrid incols top bottom mapping colmapping rename preserve p.1 p.2
 
 /-- `transfer_generators_from`: the new `generatorlist`.
     `incolFlags[i]` says whether the centre of target column `i` lies in some source
@@ -711,8 +737,7 @@ def transferGenerators (q : List (Rat × Rat) → Rat × Rat → Nat) (gens : Li
   | .error e => .error e
   | .ok (mapping, colmapping) =>
     let incols := ((geo.cols.zip incolFlags).filter (·.2)).map (·.1)
-    match mapE (fun (p : Nat × Gen) =>
-        transferOneGen sgeo geo sgridVol tgrid incols top bottom mapping colmapping rename preserve p.1 p.2)
+    match mapE (genStep sgeo geo sgridVol tgrid incols top bottom mapping colmapping rename preserve)
         (enumFrom 0 gens) with
     | .error e => .error e
     | .ok ls => .ok ls.flatten
@@ -799,5 +824,35 @@ def distinctPts : List (Rat × Rat) → Bool
 /-- pairwise distinct column centres and pairwise distinct underground layer centres -/
 def distinctCentres (g : Geo) : Bool :=
   distinctPts (g.cols.map Col.centre) && distinctQ ((g.lays.drop 1).map (·.centre))
+
+/-- a generator sits where its name says (the situation of the identity clause): its name is
+    the block name of (its category, its block's column); a top / bottom generator is on the
+    top block of its column / in the bottom layer; an interior one is on a block of the grid
+    with the same volume in source and target; tables are consistent (`rate` present) -/
+def genPlaced (g : Geo) (sgridVol : Dict Rat) (tgrid : List (Str × Rat)) (top bottom : List Str) (sg : Gen) : Bool :=
+  let cat := layerName g.conv sg.name
+  let scn := columnName g.conv sg.block
+  (decide (ntimes sg ≤ 1) || sg.rate.isSome) &&
+  decide (blockName g.conv cat scn = .ok sg.name) &&
+  (if (top ++ bottom).contains cat then
+     match g.findCol scn with
+     | .error _ => false
+     | .ok c =>
+       decide (c.area ≠ 0) &&
+       (match colGenLayer g top cat c with
+        | .error _ => false
+        | .ok ln => decide (blockName g.conv ln c.name = .ok sg.block))
+   else
+     match dget sgridVol sg.block with
+     | .error _ => false
+     | .ok vol => decide (vol ≠ 0) && tgrid.contains (sg.block, vol))
+
+/-- identical geometry, identity mappings, all columns inside, unique block names -/
+def genIdentitySetting (g : Geo) (tgrid : List (Str × Rat)) (incolFlags : List Bool) (m cm : Dict Str) : Bool :=
+  namesOK g && nodupB (tgrid.map (·.1)) &&
+  decide (incolFlags = g.cols.map (fun _ => true)) &&
+  !m.isEmpty && !cm.isEmpty &&
+  tgrid.all (fun b => decide (dget m b.1 = .ok b.1)) &&
+  g.cols.all (fun c => decide (dget cm c.name = .ok c.name))
 
 end Model.Mapping
